@@ -10,7 +10,7 @@ ID = "C07"
 READY = True
 LEVEL = "exploration"
 WORKERS = {"quick": 8, "thorough": 16}
-BUDGET = {"quick": 60, "thorough": 420}
+BUDGET = {"quick": 150, "thorough": 420}
 MIN_NONTRIVIAL = {"quick": 4000, "thorough": 100000}
 REQUIRED_HOOKS = ["evaluate:I", "evaluate:C", "string", "bytes", "int", "uint", "double"]
 RULE = (
